@@ -436,6 +436,11 @@ class Engine(object):
             res = ObligationResult(name, "discharged", info=info, time_s=dt, path_id=self.n_paths,
                                    vc_smt2=smt2)
         elif r == z3.sat:
+            small = self.small_lists()
+            if small:
+                r2, m2, _ = self._check(z3.Not(c), *small)
+                if r2 == z3.sat:
+                    m = m2
             res = ObligationResult(name, "failed", model=self.model_inputs(m), info=info, time_s=dt,
                                    path_id=self.n_paths, vc_smt2=smt2)
         else:
@@ -443,6 +448,10 @@ class Engine(object):
                                    vc_smt2=smt2, reason=reason)
         self.results.append(res)
         return res
+
+    def small_lists(self, bound=6):
+        """Constraints bounding the symbolic input lists (only to obtain readable counter-models)."""
+        return [v.length <= bound for v in self.inputs.values() if isinstance(v, SList)]
 
     def cover(self, name):
         self.covers[name] = self.covers.get(name, 0) + 1
